@@ -60,7 +60,8 @@ namespace {
   }
   //! relative cancellation of 1-r^n
   R cancellation(const R q, const R n) {
-    if (q == 1) return 0;
+    // no closed form (hence no cancellation) in the near-uniform branch |r-1| <= 1e-5
+    if (q == 1 || q - 1 <= 0.99e-5L) return 0;
     const R lq = std::log1p(q - 1);
     const R e = n * lq > 11000 ? INFINITY : std::expm1(n * lq);
     return std::min(1 / e, R(1.1e5) / n);
